@@ -8,9 +8,10 @@ stack). Every theorem below quantifies over ALL key lists / stores, prefixes, `a
 operation sequences; the only standing hypothesis is that the ordered container presents its keys in strictly
 ascending bytewise order (`Sorted`), which `kv_keys_sorted` shows every reachable store satisfies.
 
-On the unchanged tree the raft statements are false in full generality (findings F4, F9, F9b, F13): the full
-statements are kept as `…_full : Prop`, their negations are proved from concrete witnesses (`…_cex`), and the
-`…_partial` theorems carry the exact side condition (`SeekSafe`) under which the code is right.
+History: until the repair of the raft seek (`filepath.Join(prefix, after)` → `prefix + after`; findings F4, F9, F40)
+the raft statements carried a side condition on the cursor start and had counterexample theorems; they are full now.
+The one remaining defect of the current tree (F41, the empty child of a pending Put) keeps
+`rafttxn_list_pending_eq_spec_partial` partial, with `rafttxn_pending_empty_child_cex` as its witness.
 -/
 namespace C13
 open Obao.KV Obao.Listing
@@ -60,75 +61,32 @@ theorem file_list_eq_spec (keys : List Key) (p after : Key) (limit : Int) :
     fileList (children keys p) after limit = listPage keys p after limit :=
   fileList_eq_listPage keys p after limit
 
-/-- the full raft statement (false on the unchanged tree: F9, F9b) -/
-def fsm_list_eq_spec_full : Prop :=
-  ∀ (keys : List Key), Sorted keys → ∀ (p after : Key) (limit : Int), raftList keys p after limit = listPage keys p after limit
-
-/-- raft `listPageInner` = specification whenever its cursor start is safe: inside the prefix interval (always
-true thanks to the fallback, `raftSeek_hasPrefix`) and not beyond `prefix ++ after` -/
-theorem fsm_list_eq_spec_partial (keys : List Key) (hs : Sorted keys) (p after : Key) (limit : Int)
-    (hsafe : raftSeek p after ≤ p ++ after) :
+/-- raft `listPageInner` (bbolt cursor from `prefix + after`, collapse against the last emitted key, `<= after` skip,
+limit) = specification, for every sorted key list, prefix, `after` and `limit`. FULL since the repair of F4/F9/F40:
+before it the cursor started at `filepath.Join(prefix, after)` and the statement needed `seek ≤ prefix ++ after`. -/
+theorem fsm_list_eq_spec (keys : List Key) (hs : Sorted keys) (p after : Key) (limit : Int) :
     raftList keys p after limit = listPage keys p after limit :=
-  raftListFrom_eq_listPage keys hs _ p after limit ⟨raftSeek_hasPrefix p after, hsafe⟩
+  raftListFrom_eq_listPage keys hs _ p after limit (raftSeek_safe p after)
 
-/-- without `after` the raft listing is unconditionally right -/
-theorem fsm_list_all_eq_spec (keys : List Key) (hs : Sorted keys) (p : Key) (limit : Int) :
-    raftList keys p [] limit = listPage keys p [] limit :=
-  fsm_list_eq_spec_partial keys hs p [] limit (by simp [raftSeek])
-
-/-- the repair proposed for F4/F9 (`seek = prefix + after`, no `filepath.Join`) is right for ALL inputs -/
-theorem fsm_list_eq_spec_fixed (keys : List Key) (hs : Sorted keys) (p after : Key) (limit : Int) :
-    raftListFixed keys p after limit = listPage keys p after limit :=
-  raftListFrom_eq_listPage keys hs _ p after limit ⟨hasPrefix_append p after, kle_refl _⟩
-
-/-- F9: keys foo/a foo/b foo/z, prefix `foo/`, after `a/../m`: the cursor starts at `foo/m` and skips `b` -/
-theorem fsm_list_after_dotdot_cex : ¬ fsm_list_eq_spec_full := by
-  intro h
-  have := h [[102,111,111,47,97],[102,111,111,47,98],[102,111,111,47,122]] (by decide)
-    [102,111,111,47] [97,47,46,46,47,109] (-1)
-  revert this; decide
-
-/-- F9b: prefix `foo` (not slash-terminated), keys foo-x foo. foo/y, after = one dash: `Join` inserts a slash before the dash, so the cursor skips the children `-x` and `.` -/
-theorem fsm_list_nondir_prefix_cex :
-    raftList [[102,111,111,45,120],[102,111,111,46],[102,111,111,47,121]] [102,111,111] [45] (-1) = [[47]] ∧
-    listPage [[102,111,111,45,120],[102,111,111,46],[102,111,111,47,121]] [102,111,111] [45] (-1) = [[45,120],[46],[47]] := by
-  decide
-
-/-- the full statement for listings inside a raft transaction without pending writes (false: F4, F9) -/
-def rafttxn_list_eq_spec_full : Prop :=
-  ∀ (keys : List Key), Sorted keys → ∀ (p after : Key) (limit : Int),
-    raftTxnList keys [] p after limit = listPage keys p after limit
-
-/-- `RaftTransaction.ListPage` (no pending writes) = specification whenever its cursor start — which has NO
-fallback — is inside the prefix interval and not beyond `prefix ++ after` -/
-theorem rafttxn_list_eq_spec_partial (keys : List Key) (hs : Sorted keys) (p after : Key) (limit : Int)
-    (hin : hasPrefix p (txnSeek p after) = true) (hle : txnSeek p after ≤ p ++ after) :
+/-- `RaftTransaction.ListPage` without pending writes = specification, for every input (FULL since the repair) -/
+theorem rafttxn_list_eq_spec (keys : List Key) (hs : Sorted keys) (p after : Key) (limit : Int) :
     raftTxnList keys [] p after limit = listPage keys p after limit :=
-  raftTxnList_nil_eq_listPage keys hs p after limit ⟨hin, hle⟩
+  raftTxnList_nil_eq_listPage keys hs p after limit (raftSeek_safe p after)
 
-/-- F4: keys a foo/a foo/b foo/z zz, prefix `foo/`, after `..`: `Join` gives `.`, the cursor lands on `a`, which
-is outside the prefix, and the loop ends at once: `[]` instead of `[a b z]` (the plain listing falls back) -/
-theorem rafttxn_list_leaves_prefix_cex : ¬ rafttxn_list_eq_spec_full := by
-  intro h
-  have := h [[97],[102,111,111,47,97],[102,111,111,47,98],[102,111,111,47,122],[122,122]] (by decide)
-    [102,111,111,47] [46,46] (-1)
-  revert this; decide
-
-/-- on the same input the plain raft listing is right -/
-example : raftList [[97],[102,111,111,47,97],[102,111,111,47,98],[102,111,111,47,122],[122,122]] [102,111,111,47] [46,46] (-1)
+/-- the inputs that witnessed F9, F40 and F4 on the old seek now list what the specification says -/
+example : raftList [[102,111,111,47,97],[102,111,111,47,98],[102,111,111,47,122]] [102,111,111,47] [97,47,46,46,47,109] (-1)
+    = [[98],[122]] := by decide
+example : raftList [[102,111,111,45,120],[102,111,111,46],[102,111,111,47,121]] [102,111,111] [45] (-1)
+    = [[45,120],[46],[47]] := by decide
+example : raftTxnList [[97],[102,111,111,47,97],[102,111,111,47,98],[102,111,111,47,122],[122,122]] [] [102,111,111,47] [46,46] (-1)
     = [[97],[98],[122]] := by decide
 
-/-- F13: a pending Put of the key `foo/` is not listed as the empty child of `foo/` inside the transaction,
+/-- F41: a pending Put of the key `foo/` is not listed as the empty child of `foo/` inside the transaction,
 although the store the transaction will commit has it -/
 theorem rafttxn_pending_empty_child_cex :
     raftTxnList [[102,111,111,47,97]] [([102,111,111,47], some [1])] [102,111,111,47] [] (-1) = [[97]] ∧
     listPage (keys (overlay [([102,111,111,47,97], [0])] [([102,111,111,47], some [1])])) [102,111,111,47] [] (-1) = [[], [97]] := by
   decide
-
-/-- non-vacuity of the side conditions: an ordinary continuation token is safe on both raft paths -/
-example : raftSeek [102,111,111,47] [97] ≤ [102,111,111,47] ++ [97] := by decide
-example : hasPrefix [102,111,111,47] (txnSeek [102,111,111,47] [97]) = true ∧
-    txnSeek [102,111,111,47] [97] ≤ [102,111,111,47] ++ [97] := by decide
 
 /-! ### listings inside a raft transaction WITH pending writes -/
 
@@ -140,14 +98,12 @@ theorem rafttxn_updates_wf (u : Updates) (h : UpdWF u) (k : Key) (r : Option Val
 /-- `RaftTransaction.ListPage` with ANY pending puts and deletes (the merge of `updates`, the hiding of
 `deletions`, folder collapsing, the limit with its final trim) lists exactly the store the transaction presents —
 the committed store overlaid with the pending writes — for every committed store, pending-write table, prefix,
-`after` and `limit`, provided the cursor start is safe (F4/F9) and no pending Put writes the key that equals the
-listed prefix (F13) -/
+`after` and `limit`, provided no pending Put writes the key that equals the listed prefix (F41; the only remaining
+side condition since the repair of the seek) -/
 theorem rafttxn_list_pending_eq_spec_partial (s : Store) (hs : Sorted (keys s)) (u : Updates) (hu : UpdWF u)
-    (p after : Key) (limit : Int)
-    (hin : hasPrefix p (txnSeek p after) = true) (hle : txnSeek p after ≤ p ++ after)
-    (hne : ∀ k v, (k, some v) ∈ u → k ≠ p) :
+    (p after : Key) (limit : Int) (hne : ∀ k v, (k, some v) ∈ u → k ≠ p) :
     raftTxnList (keys s) u p after limit = listPage (keys (overlay s u)) p after limit :=
-  raftTxnList_eq_listPage s hs u hu p after limit ⟨hin, hle⟩ hne
+  raftTxnList_eq_listPage s hs u hu p after limit (raftSeek_safe p after) hne
 
 /-- the store a transaction presents is the map one expects: pending puts win, pending deletes hide, the rest shows -/
 theorem rafttxn_overlay_keys (s : Store) (u : Updates) (k : Key) :
@@ -222,20 +178,6 @@ example : keyBack [.pview [102,111,111,47], .cache] [102,111,111,47,102,111,111,
 
 /-! ### well-formed continuation tokens, paging, scanning -/
 
-/-- on the inputs every in-tree caller produces — a slash-terminated prefix of ordinary segments and an `after` that is
-a previously returned entry (ordinary segments, optionally one trailing slash) — BOTH raft listings equal the
-specification, for every sorted key list and limit -/
-theorem raft_list_eq_spec_clean (keys : List Key) (hs : Sorted keys) (p after : Key) (limit : Int)
-    (hp : cleanDir p) (ha : cleanStable after) :
-    raftList keys p after limit = listPage keys p after limit ∧
-    raftTxnList keys [] p after limit = listPage keys p after limit := by
-  obtain ⟨h1, h2⟩ := seekSafe_of_clean p after hp ha
-  exact ⟨raftListFrom_eq_listPage keys hs _ p after limit h1, raftTxnList_nil_eq_listPage keys hs p after limit h2⟩
-
-example : cleanDir [102,111,111,47] ∧ cleanStable [97,47] :=
-  ⟨.inr ⟨[[102,111,111]], by simp, by intro s h; simp at h; subst h; decide, rfl⟩,
-   ⟨[[97]], by simp, by intro s h; simp at h; subst h; decide, .inr rfl⟩⟩
-
 /-- paging: asking for the page after the last entry received, until a page comes back empty, yields exactly the
 full child list — for every page size ≥ 1, provided no child is the empty string (a key equal to the listed
 prefix; see `empty_child_corner`) -/
@@ -269,6 +211,17 @@ theorem scan_inmem_visits_exactly (ks : List Key) (hs : Sorted ks) (pageSize : I
     ∃ fuel l, scanView (fun p after limit => .ok (inmemList ks p after limit)) pageSize fuel = some (.ok l) ∧
       l.Nodup ∧ ∀ k, k ∈ l ↔ k ∈ ks := by
   rw [inmem_lister_eq ks hs]; exact scanView_visits_exactly ks pageSize hps
+
+/-- … and over both raft listings (plain, and inside a read-only transaction as `ScanViewPaginated` does on a logical
+view): a consequence of `fsm_list_eq_spec` / `rafttxn_list_eq_spec`; false before the repair (F4 and F40 broke it) -/
+theorem scan_raft_visits_exactly (ks : List Key) (hs : Sorted ks) (pageSize : Int) (hps : pageSize ≥ 2) :
+    (∃ fuel l, scanView (fun p after limit => .ok (raftList ks p after limit)) pageSize fuel = some (.ok l) ∧
+      l.Nodup ∧ ∀ k, k ∈ l ↔ k ∈ ks) ∧
+    (∃ fuel l, scanView (fun p after limit => .ok (raftTxnList ks [] p after limit)) pageSize fuel = some (.ok l) ∧
+      l.Nodup ∧ ∀ k, k ∈ l ↔ k ∈ ks) := by
+  obtain ⟨h1, h2⟩ := raft_lister_eq ks hs
+  rw [h1, h2]
+  exact ⟨scanView_visits_exactly ks pageSize hps, scanView_visits_exactly ks pageSize hps⟩
 
 example : scanView (specLister [[97],[98,47],[98,47,99],[98,47,100,47,101]]) 2 20
     = some (.ok [[97],[98,47],[98,47,99],[98,47,100,47,101]]) := by rfl
